@@ -43,7 +43,11 @@ RULE = ("every case of gen/c18.py: failing statement {error(), array index out o
         "(codelen) preceded in the same function by one or two source lines generating exactly 240..270, 509..513, 764..768 bytes of code (lengths verified against the program's line table), "
         "statement on the next / the same line; (context) inherited program (direct and ::), anonymous function, expression functional, global initialiser, foreach/switch/while/for/if/else body, "
         "after a multi-line macro definition / macro call / string / text block / comment, inside catch, and after reloading the program (plain; include+inherit) from its saved binary; "
-        "(depth) call depth 1..4 over all hop sequences of {local call, call_other, function pointer, efun callback (map)}. "
+        "(depth) call depth 1..4 over all hop sequences of {local call, call_other, function pointer, efun callback (map)}; "
+        "(termination) every file of the case (main, include levels 1..3, inherited, statement-level include) ending with newline / without newline / with a block comment without newline / "
+        "with blank lines - for all files, only the failing file, only the main file - with the failing statement or the call site on the last code line; "
+        "(history) the context, saved-binary and a set of include cases again after each prelude compile {valid file with initialisers, initialisers then syntax error, syntax error inside an "
+        "include, aborted by a missing inherit}; every case is raised twice, the second time through the apply cache after another call chain used the same control-stack slots. "
         "Oracle: generator's record (file, line, function, object, program per active frame, innermost last) == error_handler mapping and its trace; second pass: == the lines dump_trace() prints")
 
 ASSUMPTIONS = ["frames of anonymous functions / functionals are named <function> (printed as (function)), the catch frame CATCH, the initialiser #global_init#: the driver's own naming is accepted",
